@@ -7,7 +7,8 @@ from ..core import Script, Rng
 from .common import *
 from . import c02, c03, c06
 
-ARTEFACTS = ["G4-listings"]
+ARTEFACTS = ["G4-listings", "G22-dispatch"]
+EXTRA_PROPS = [("B3.Props.C04T", "B3/Props/C04T.lean")]   # the dispatch functions as translated: the kernel chosen is a function of the feature mask alone
 RULE = ("fresh processes in which 2..16 threads are released together by a barrier on their first-ever calls into the library (so "
         "CPU-feature detection itself races), each thread running its own C02/C03 history (Rust crate) or C06 history (C library) on "
         "its own instances (one third of the processes: staggered first calls; one third: hundreds of short calls per thread through "
@@ -49,9 +50,28 @@ class ThreadStage:
         for p in range(self.procs):
             nthreads = rng.choice([2, 3, 4, 8, 16])
             secs = []
-            staggered = (p % 3 == 1)
-            hammer = (p % 3 == 2)
+            staggered = (p % 4 == 1)
+            hammer = (p % 4 == 2)
+            size_race = (p % 4 == 3)
+            if size_race:
+                nthreads = 4
             for t in range(nthreads):
+                if size_race:
+                    # a fresh process in which most threads are inside medium-sized updates (17..127 KiB) while one thread makes the
+                    # process's first large call: any process-wide state that depends on the SIZES seen so far shows here
+                    big = rng.choice([128 * 1024, 256 * 1024, 1 << 20])
+                    if t == 0:
+                        ops = [("C init a hash", "H new a hash"), (f"C upd a {pat(rng.choice([1, 700]), rng)}", f"H upd a {pat(rng.choice([1, 700]), rng)}"),
+                               ("C fin a 32", "H fin a")]
+                        d = pat(big, rng)
+                        ops += [("C init b hash", "H new b hash"), (f"C upd b {d}", f"H upd b {d}"), ("C fin b 32", "H fin b")]
+                    else:
+                        ops = []
+                        for i in range(12):
+                            d = pat(rng.choice([17, 32, 48, 64, 100, 127]) * 1024 + rng.choice([0, 1]), rng)
+                            ops += [("C init a hash", "H new a hash"), (f"C upd a {d}", f"H upd a {d}"), ("C fin a 32", "H fin a")]
+                    secs.append([o[0] if self.impl == "c" else o[1] for o in ops])
+                    continue
                 if hammer:
                     # many short calls through every entry point, each thread with its own key / context / input: maximises
                     # contention on any process-wide state keyed by API arguments (a memo of the last key, context, length...)
